@@ -13,10 +13,12 @@ func init() {
 			"N4 nil literals and nil-seeded locals are not passed to callees that dereference the parameter; N5 map lookups of pointer type are dereferenced only under comma-ok / same-key idioms; " +
 			"N6 a value co-returned with an error is not used where the error is known non-nil; N7 single-value type assertions cannot fail (closed world over module types, PeerType facts, kind cases); " +
 			"N8 constant indexes are dominated by a length fact; N9 no panic/log.Fatal/os.Exit outside cli.Execute, and library calls with a panicking precondition (netset.IPBlockFromIPAddress on non-IPv4) are dominated by a validation; " +
+			"N12 every construction (composite literal) of a module struct sets the pointer fields that the code dereferences without a nil test, directly or through the by-value structs it contains; " +
 			"N10 the module call graph is acyclic and every for loop is a range or a counted loop. " +
 			"NOT decided: panics inside cli-runtime, yaml, apimachinery conversion or np-guard/models on other preconditions; resource exhaustion; termination of library code."
 		rules.NilGuards(p, r)
 		rules.NilAuxiliary(p, r)
+		rules.ConstructorCompleteness(p, r)
 		r.Floor("E2-N1", 18)
 		r.Floor("E2-N3", 12)
 		r.Floor("E2-N7", 10)
